@@ -207,10 +207,7 @@ func c32noAliasing(g *c32gen) {
 						out = "overwritten"
 						g.ctx.Violation(scn.Name, "codec: an encoder's earlier result is overwritten by its next call", fmt.Sprintf("%s encoder: the bytes returned for input #%d were %x; after encoding input #%d the same slice reads %x", e.name, i, keep, j, first), map[string]interface{}{"encoder": e.name, "first": i, "second": j})
 					}
-					if i == j && !bytes.Equal(first, second) {
-						out = "unstable"
-						g.ctx.Violation(scn.Name, "codec: the same value encodes differently the second time", fmt.Sprintf("%s encoder, input #%d: %x then %x", e.name, i, keep, second), nil)
-					}
+					_ = second // (two encodings of one value may differ: msgpack writes a map in Go's iteration order)
 					scn.Case(out, true)
 				}
 			}
